@@ -659,8 +659,6 @@ def fs_text_judge(ops, obs):
     one the property text allows"""
     tree = {'in': ('d',), 'out': ('d',)}
     H = {}
-    relaxed_copy = None
-    faulted = False
     for k, line in enumerate(ops):
         if k >= len(obs):
             return None
@@ -703,8 +701,8 @@ def fs_text_judge(ops, obs):
                         exp[path] = ('f', pat_bytes(int(t[2]), int(t[3])))
                     else:
                         exp[path] = ('l', unhex(t[1]))
-            elif op == 'inject':
-                relaxed_copy = [int(x) for x in t[1:]]
+            elif op in ('inject', 'fault'):
+                pass                  # arms the next copy / unlink / purge; what counts is what the library consumed (probes x, ff)
             elif op == 'open':
                 h, fl = int(t[1]) & 7, int(t[3])
                 wr = bool(fl & 2)
@@ -730,8 +728,6 @@ def fs_text_judge(ops, obs):
                     raise Bad('result', 'unexpected answer ' + res[0])
             elif op == 'close':
                 H.pop(int(t[1]) & 7, None)
-            elif op == 'fault':
-                faulted = True
             elif op in ('cwd', 'abspath'):
                 txt = unhex(res[0])
                 arg_ = unhex(t[1]) if op == 'abspath' else b''
@@ -887,6 +883,7 @@ def fs_text_judge(ops, obs):
             elif op == 'copy':
                 fie = t[3] == '1'
                 S, E, D = pr.get('s', '-'), pr.get('e', '-'), pr.get('d', '-')
+                consumed = pr.get('x', '0') not in ('0', '', '-')      # injected transfer outcomes that reached the library
                 if res[0] == '1':
                     if S not in tree or tree[S][0] != 'f':
                         raise Bad('copy-source', 'copy says true although the source is no regular file')
@@ -895,30 +892,27 @@ def fs_text_judge(ops, obs):
                     if fie and E != '-':
                         raise Bad('copy-fail-if-exists', 'copy with failIfExists says true although the destination existed')
                     exp[D] = ('f', tree[S][1])
-                elif relaxed_copy is not None and S in tree and tree[S][0] == 'f' and (
+                elif consumed and S in tree and tree[S][0] == 'f' and (
                         (E in tree and tree[E][0] == 'f' and E != S) or
                         (E == '-' and pr.get('l', '-') != '-' and D != '-' and D not in tree)):
-                    # a transfer that was made to fail midway over an existing destination - or over a name
+                    # a transfer call of the library was made to fail or to stop short (probe x: the injected
+                    # outcomes that actually reached the library) over an existing destination - or over a name
                     # that did not exist, reached through a symbolic link: what has arrived stays (level_note);
-                    # it is a prefix of the source's bytes, no other name may appear, nothing else may change
+                    # it is a prefix of the source's bytes (how long: the sizes of the calls, which only the
+                    # model predicts), no other name may appear, nothing else may change
                     W = E if E in tree else D
                     src = tree[S][1]
                     if fie or (W in tree and tok_of(W, tree[W]) in post_toks):
-                        relaxed_copy = []          # failIfExists never touches an existing destination; or nothing happened
-                    sums, acc = [0], 0
-                    for n in relaxed_copy:
-                        if n <= 0:
-                            break
-                        acc = min(len(src), acc + n)
-                        sums.append(acc)
-                    fit = [n for n in sums if tok_of(W, ('f', src[:n])) in post_toks]
-                    if relaxed_copy == []:
-                        pass
-                    elif not fit:
-                        raise Bad('copy-partial-bytes', 'after a failed transfer the destination holds neither nothing nor a prefix of the source')
+                        pass                       # failIfExists never touches an existing destination; or nothing happened
                     else:
-                        exp[W] = ('f', src[:fit[-1]])
-                relaxed_copy = None
+                        n = None
+                        for x in post_toks:
+                            if x.startswith(W + ':f:'):
+                                r_ = x[len(W) + 3:]
+                                n = 0 if r_ == '-' else (int(r_[1:].split('.')[0]) if r_.startswith('#') else len(r_) // 2)
+                        if n is None or n > len(src) or tok_of(W, ('f', src[:n])) not in post_toks:
+                            raise Bad('copy-partial-bytes', 'after a failed transfer the destination holds neither nothing nor a prefix of the source')
+                        exp[W] = ('f', src[:n])
             elif op == 'exists':
                 S = pr.get('s', '-')
                 if not S.startswith('!') and not S.startswith('?'):
@@ -952,7 +946,6 @@ def fs_text_judge(ops, obs):
                     out_ = [q for q in tree if q not in exp and not (F in tree and under(q, F))]
                     if out_ and not (t[1].endswith('2f') or t[1].endswith('2e')):
                         raise Bad('unlink-failed-outside', 'a failed recursive unlink removed `%s`, outside the directory it was given' % out_[0][:60])
-                faulted = False
             elif op == 'purge':
                 rec = t[2] == '1'
                 F = pr.get('s', '-')
@@ -974,7 +967,6 @@ def fs_text_judge(ops, obs):
                     out_ = [q for q in tree if q not in exp and not (F in tree and under(q, F))]
                     if out_ and not (t[1].endswith('2f') or t[1].endswith('2e')):
                         raise Bad('purge-failed-outside', 'a failed purge removed `%s`, outside the directory it was given' % out_[0][:60])
-                faulted = False
             else:
                 return None
             # the tree afterwards must be exactly the expected one
@@ -1002,6 +994,35 @@ def fs_text_judge(ops, obs):
         for h in [h for h, hh in H.items() if hh['path'] not in tree]:
             H.pop(h)
     return None
+
+
+def consumed_fault(obs_line):
+    """did an injected transfer outcome / the armed fault reach a call of the library (harness probes x, ff)"""
+    secs = obs_line.split(' | ')
+    if len(secs) < 4:
+        return False
+    pr = dict(x.partition('=')[::2] for x in secs[3].split(' '))
+    return pr.get('ff', '0') == '1' or pr.get('x', '0') not in ('0', '', '-')
+
+
+def under_faults(spec, impl):
+    """A Spec line that starts with the token F is the expectation for an operation that ran with an injected
+    transfer outcome (`inject`) or an armed fault (`fault n`), computed WITHOUT the fault.  The property text
+    fixes the outcome of such an operation only through the faults that actually fired, so the line counts in
+    full when the harness reports that nothing was consumed (the library made no such call, or fewer calls than
+    the position of the fault); when a call of the library was made to fail, which call that was and what is
+    left depends on the order and number of the library's system calls - the text says nothing about either - and
+    that operation and the rest of the case are judged by fs_text_judge alone (true => the exact result; false =>
+    nothing new, nothing altered, nothing outside the given directory / the one destination file; the observed
+    tree is carried forward).  The exact prediction stays with the Model (correspondence)."""
+    out = []
+    for k, line in enumerate(spec):
+        if line.startswith('F '):
+            if k < len(impl) and consumed_fault(impl[k]):
+                return out, impl[:k]
+            line = line[2:]
+        out.append(line)
+    return out, impl
 
 
 class C19(Check):
@@ -1040,7 +1061,14 @@ class C19(Check):
                   'links to directories, "." and ".." left out; wildcard matcher proved equal to the reference relation); purge = the exact cut plus '
                   'every ancestor below the current directory that this leaves empty, nothing outside the first name of the path touched; recursive '
                   'unlink with any one failing rmdir/opendir/readdir/unlink call (fault oracle; exercised through interposed calls) says true only '
-                  'with the exact cut, false only when a call failed, and in all cases only removes inside the given directory.')
+                  'with the exact cut, false only when a call failed, and in all cases only removes inside the given directory. '
+                  'Under injected faults (a failing rmdir/opendir/readdir/unlink call; a short, empty or failing sendfile) the property oracle '
+                  'demands only what the text states given the faults that actually fired: the harness reports whether an injected outcome '
+                  'reached a call of the library (probes x = sendfile outcomes consumed, ff/fw = the armed fault made this call fail); when none '
+                  'did, the fault-free expectation applies in full (theorem unlink_fault_not_consumed_is_fault_free: such a run is the fault-free '
+                  'run); when one did, the answer true requires the exact result, the answer false requires no new name, nothing altered, removals '
+                  'inside the given directory only (copy: at most the one destination file, holding a prefix of the source) - which call fails and '
+                  'which entries are left is predicted by the model alone and compared as correspondence.')
     level_note = ('Partial for B: the kernel (path resolution with symbolic links, open/read/write/lseek/ftruncate/sendfile/rename/unlink/'
                   'mkdir/rmdir/symlink/stat/lstat/readdir; FsModel part K) is a trusted model, validated only by correspondence on one '
                   'file system (the sandbox reports ext2/ext3; uid 0, so no permission failures; no hard links); descriptors name files by '
@@ -1079,7 +1107,14 @@ class C19(Check):
                   'then tries the unrelated name `x` (as Directory::create does for parents); getAbsolutePath takes `c:/...` and a leading backslash '
                   'for absolute on POSIX too, and when getcwd fails (current directory removed) it answers "/" + path: not generated. Fault oracle: one '
                   'failing call (EIO) per operation; the purge theorem is for the fault-free run, purge under faults by judge and correspondence; a '
-                  'current directory that is removed or renamed while current is outside model and generators; readAll on a File that was never '
+                  'current directory that is removed or renamed while current is outside model and generators. The position of a fault counts the '
+                  'library\'s own calls, so which call fails - and what a failed unlink leaves, or whether a sendfile outcome is met at all - depends on '
+                  'the order, number and kind of system calls the code makes; the text says nothing about them, so a rewrite that lists a directory '
+                  'first and removes files before sub-directories, or copies with read/write instead of sendfile, is not contradicted by the '
+                  'property oracle: it shows as a model/implementation difference (no-failing-input-found). A failed unlink that goes on removing '
+                  'other entries after the failing one still reports failure and removes inside the directory only: also only a difference to the model '
+                  '(mutant 18). After an operation that consumed a fault the Spec (whose state is the fault-free one) is not consulted for the rest of '
+                  'the case; the text judge, which carries the observed tree forward, is. readAll on a File that was never '
                   'opened looks at descriptor 0. Trusted: Coq kernel, extraction + OCaml driver, harness, generators, the Python judge.')
     technique = 'machine-checked proof (Coq) + model/implementation correspondence + executable property-text judge'
     rule = ('A: every string of length <= 5 (thorough 7) over {/ \\ . a b} through all scanners, simplifyPath twice and '
@@ -1110,6 +1145,7 @@ class C19(Check):
                    'Directory::create false => not-exists: path text without backslash; create_succeeds / unlink / purge / fault theorems: relative texts of proper names through real directories',
                    'fnmatch(pattern, name, 0) as modelled for patterns of literal bytes, * and ? (FsModel.glob, proved equal to the reference relation FsSpec.matches)',
                    'a directory is not changed between Directory::open and the reads; at most one system call of an unlink / purge fails (EIO)',
+                   'injected faults are judged by what the harness reports as consumed (sendfile outcomes, the failing rmdir/unlink/opendir/readdir call); faults in calls the harness does not interpose (read, write, open, close) are not generated',
                    'getAbsolutePath: getcwd succeeds and the current directory is a real directory named by proper names (holds initially and after every successful Directory::change)']
 
     FS_SETUP = ('mkd', 'mkf', 'mkl', 'mkfbig', 'inject', 'fault')
@@ -1151,6 +1187,8 @@ class C19(Check):
                     fails.append((i, k, cls + ' ' + msg))
                     text_failed.add(i)
         for i, (s, o) in enumerate(zip(spec_obs, impl_obs)):
+            if cases[i] and cases[i][0].startswith('@fs'):
+                s, o = under_faults(s, o)
             k = first_diff(s, o)
             if k is None:
                 continue
